@@ -342,6 +342,7 @@ REQ_MUTATIONS = {
     "host-differs-from-authority": lambda b, q, r: b + [(b"host", b"evil.example")],
     "host-equals-authority": lambda b, q, r: b + [(b"host", q["authority"])],
     "host-only": lambda b, q, r: [h for h in b if h[0] != b":authority"] + [(b"host", q["authority"])],
+    "two-hosts-equal": lambda b, q, r: b + [(b"host", q["authority"]), (b"host", q["authority"])],
     "two-hosts": lambda b, q, r: [h for h in b if h[0] != b":authority"] + [(b"host", q["authority"]), (b"host", b"evil.example")],
     "cl-dup-conflict": lambda b, q, r: [h for h in b if h[0] != b"content-length"] + [(b"content-length", b"0"), (b"content-length", b"7")],
     "cl-nonnumeric": lambda b, q, r: [h for h in b if h[0] != b"content-length"] + [(b"content-length", r.choice([b"+3", b"3, 3", b"0x3", b"3 ", b"-1", b""]))],
@@ -639,6 +640,12 @@ def classify(kind, info):
     #     (b) when that raw body is itself an HTTP/1 request the origin answers twice; the surplus response hits a finished stream
     # (f) HTTP/3 only (aioquic validates less than hyper-h2): Host differing from :authority, connection-specific fields
     blk = info.get("h3_block") or {}
+    #     ... more than one host field (all equal to :authority, so the host/:authority comparison passes)
+    if blk.get("multiple_host_fields") and not blk.get("host_differs_from_authority") and not blk.get("connection_specific"):
+        if pair == "h3h1" and kind == "upstream-request-differs" and info.get("diff_keys", set()) <= {"authority", "host-field", "ambiguous-block-forwarded"}:
+            return "h3-request-multiple-host-fields-forwarded"
+        if pair == "h3h2" and kind == "origin-h2-rejects-proxy-bytes":
+            return "h3-request-multiple-host-fields-forwarded"
     if pair == "h3h1" and kind == "upstream-request-differs" and blk.get("host_differs_from_authority") and info.get("diff_keys", set()) <= {"authority", "host-field", "ambiguous-block-forwarded"}:
         return "h3-request-host-differing-from-authority-forwarded"
     if pair == "h3h2" and kind == "origin-h2-rejects-proxy-bytes" and blk.get("host_differs_from_authority") and not blk.get("connection_specific"):
@@ -875,6 +882,7 @@ def run_case(ctx, opts, forced=None):
         auth = [v for n, v in blk if n == b":authority"]
         return {
             "host_differs_from_authority": bool(auth) and any(n == b"host" and v != auth[0] for n, v in blk),
+            "multiple_host_fields": sum(1 for n, v in blk if n == b"host") > 1,
             "data_exceeds_cl": any(n == b"content-length" and v.isdigit() and int(v) < len(reqs[0]["adv"]["data"]) for n, v in blk),
             "connection_specific": any(n.lower() in (b"connection", b"proxy-connection", b"keep-alive", b"transfer-encoding", b"upgrade") or (n.lower() == b"te" and v.strip().lower() != b"trailers") for n, v in blk),
         }
